@@ -15,7 +15,7 @@ Definition runm (cfg : tcfg) (ncap : Z -> option Z) (fa : fn_ast) (args : list v
 Ltac evm := cbv -[Z.add Z.sub Z.mul Z.div Z.modulo Z.eqb Z.ltb Z.leb Z.max Z.min Z.land W64 ISIZE_MAX
                   release esz ealign needs_drop is_pow2 layout_ok
                   is_default len capacity alignment vec_handle hdr_block grow reserve reserve_exact shrink_to_fit truncate
-                  data as_ptr set_len add_len slot_read slot_write slot_copy padd read_list drop_list drop_elem hand_out
+                  data as_ptr set_len add_len slot_read slot_write slot_copy slot_copy_across padd read_list drop_list drop_elem hand_out
                   do_alloc do_realloc get_block put_block set_handle lift_opt make_layout max_align next_aligned data_offset
                   nth_error heap vecs].
 
